@@ -512,7 +512,16 @@ func runC12(w *W) {
 			pbuf := w.AllocData(pb, simrt.PlaceReadOnly)
 			roBufs = append(roBufs, pbuf)
 			sh.pbMsgs = append(sh.pbMsgs, pbuf.B)
-			if js, err := pc.Do(context.Background(), sh.pdesc, pbuf.B); err == nil && len(js) > 0 {
+			if js, err := pc.Do(context.Background(), sh.pdesc, pbuf.B); err == nil && len(js) > 1 {
+				// an unknown member (skipped by j2p) at a tape-chosen place: a call cut inside it fails while skipping
+				if js[len(js)-1] == '}' && t.Chance(2, 3, "pjson.unknown") {
+					unk := `"unk_zz":{"a":[1,2,{"b":"x"}],"c":null}`
+					body := append([]byte{}, js[:len(js)-1]...)
+					if len(body) > 1 {
+						body = append(body, ',')
+					}
+					js = append(append(body, unk...), '}')
+				}
 				jbuf := w.AllocData(js, simrt.PlaceReadOnly)
 				roBufs = append(roBufs, jbuf)
 				sh.pbJSONs = append(sh.pbJSONs, jbuf.B)
